@@ -3,7 +3,7 @@
 # Evaluates a seeded change WITHOUT touching /repo: the patch is applied to a throw-away worktree of /repo's HEAD
 # under /tmp and the checks run against it through SWEETPEA_REPO. (Equivalent to apply / run / checkout on /repo,
 # but safe while background runs use /repo.)
-PATCH="$1"; SEED="$2"; shift 2
+PATCH="$(readlink -f "$1")"; SEED="$2"; shift 2
 WT=/tmp/mutant-$$
 git -C /repo worktree add -q --detach "$WT" HEAD || exit 3
 if ! git -C "$WT" apply "$PATCH"; then echo "PATCH DOES NOT APPLY"; git -C /repo worktree remove --force "$WT"; exit 3; fi
